@@ -349,16 +349,22 @@ func c02Logout(r *core.Run, idx int, rng *rand.Rand) {
 		}
 	}
 	switch dd.Kind {
-	case "form":
-		if len(d.SLO) == 0 || fail == "issuer_unregistered" || fail == "undecodable" {
-			viol("target_without_registration", "form delivery to "+dd.Target+" although no SingleLogoutService is known for the requester")
-		} else if !onlyEncodes(d.SLO[0].Location, dd.Target) {
-			viol("target_not_first_slo", fmt.Sprintf("form action %q, first registered SingleLogoutService %q", dd.Target, d.SLO[0].Location))
-		} else if dd.Msg != nil && dd.Msg.Destination != d.SLO[0].Location {
-			viol("destination_differs_from_target", fmt.Sprintf("Destination %q, first SingleLogoutService %q", dd.Msg.Destination, d.SLO[0].Location))
+	case "form", "redirect":
+		// the statement asks for a registered location of the requester (C13 is the check that asks for the first one)
+		var hit *spsim.SLO
+		for i := range d.SLO {
+			if deliveryTargetOK(dd, d.SLO[i].Location) {
+				hit = &d.SLO[i]
+				break
+			}
 		}
-	case "redirect":
-		viol("unexpected_redirect", "logout reply delivered by redirect to "+dd.Location)
+		if len(d.SLO) == 0 || fail == "issuer_unregistered" || fail == "undecodable" {
+			viol("target_without_registration", dd.Kind+" delivery to "+dd.Target+" although no SingleLogoutService is known for the requester")
+		} else if hit == nil {
+			viol("target_not_registered", fmt.Sprintf("%s delivery to %q, registered SingleLogoutService locations %v", dd.Kind, dd.Target, d.SLO))
+		} else if dd.Msg != nil && dd.Msg.Destination != hit.Location {
+			viol("destination_differs_from_target", fmt.Sprintf("Destination %q, SingleLogoutService delivered to %q", dd.Msg.Destination, hit.Location))
+		}
 	}
 }
 
@@ -456,7 +462,7 @@ func init() {
 		TimeoutQuick: 5 * time.Minute, TimeoutThorough: 30 * time.Minute,
 		Build: func(c *Ctx) []core.Workload {
 			r := c.Run
-			r.Rule = "SSO requests naming foreign AssertionConsumerServiceURL / Index / ProtocolBinding, a URL as RelayState and extra parameters named like target overrides, against SP metadata with 1-5 consumer services (any binding/index/isDefault mix, URLs with query strings and URL/HTML/XML special characters), succeeding or failing at several steps; callbacks for stored requests with hostile consumer URLs and override parameters; logout requests with foreign Destination against 0-3 SingleLogoutService entries. Monitor: the (URL, binding) pair handed to CreateAuthRequest is one registered entry; every form action / Location is a registered URL of the issuer's SP (form: 'only-encodes' relation, redirect: exact after non-ASCII escaping) with the matching binding, resp. the stored URL at the callback, resp. the first SingleLogoutService; Destination / Recipient equal it; no canary host evil-*.example ever appears as target or Destination. A further workload keeps ONE provider alive while the requester's consumer services are re-registered between requests. Distinct = (endpoint, failure kind, transport, list size, reply kind)."
+			r.Rule = "SSO requests naming foreign AssertionConsumerServiceURL / Index / ProtocolBinding, a URL as RelayState and extra parameters named like target overrides, against SP metadata with 1-5 consumer services (any binding/index/isDefault mix, URLs with query strings and URL/HTML/XML special characters), succeeding or failing at several steps; callbacks for stored requests with hostile consumer URLs and override parameters; logout requests with foreign Destination against 0-3 SingleLogoutService entries. Monitor: the (URL, binding) pair handed to CreateAuthRequest is one registered entry; every form action / Location is a registered URL of the issuer's SP (form: 'only-encodes' relation, redirect: exact after non-ASCII escaping) with the matching binding, resp. the stored URL at the callback, resp. a registered SingleLogoutService location (C13 asks for the first one); Destination / Recipient equal it; no canary host evil-*.example ever appears as target or Destination. A further workload keeps ONE provider alive while the requester's consumer services are re-registered between requests. Distinct = (endpoint, failure kind, transport, list size, reply kind)."
 			r.Assume("registered endpoint URLs are absolute http(s) URLs without fragment")
 			r.Require("sso_persist_attempts", 50)
 			r.Require("sso_error_replies_delivered_to_sp", 50)
